@@ -145,7 +145,7 @@ Definition is_finishing (s : sst) : bool := (1 <=? s_ds s) && (s_ds s <=? 4).
    None = Err(CouldNotAcquireEnoughSpace); Some hi' = the interval [lo, hi') was written *)
 Definition tx_interval (salt : N) (s : sst) (c : cfc) (p : pkt) (lo hi : N)
   : option N * sst * cfc * pkt :=
-  let capacity := N.min (p_rem p) 65535 in
+  let capacity := N.min (p_rem p) Gen_C12.transmit_capacity_clamp in
   let ilen := hi - lo in
   if (capacity =? 0) || ((Gen_C12.min_write_size <=? ilen) && (capacity <? Gen_C12.min_write_size))
   then (None, s, c, p)
@@ -451,6 +451,10 @@ Definition with_stream (k : conn) (i : N) (f : sst -> sst) : conn :=
 Definition get_stream (k : conn) (i : N) : sst :=
   nth (N.to_nat i) (k_streams k) (sst_new 0 0 0).
 
+(* the drivers keep the payload capacity of a packet below this bound: one more than the value
+   transmit_interval clamps the capacity to (u16::MAX, "UDP payloads can't be larger anyway") *)
+Definition cap_bound : N := Gen_C12.transmit_capacity_clamp + 1.
+
 (* one operation: Some (output of the op without the state, new state, remaining input), None = stop *)
 Definition step (salt n : N) (k : conn) (op : Z) (r : list Z) : option (list Z * conn * list Z) :=
   match op with
@@ -474,7 +478,7 @@ Definition step (salt n : N) (k : conn) (op : Z) (r : list Z) : option (list Z *
       Some ([4%Z; Nz i], with_stream k i (fun s => ss_reset s (zN b mod 1024) false), r)
   | 5%Z =>
       let '(a, r) := nx r in let '(b, r) := nx r in let '(c, r) := nx r in let '(d, r) := nx r in
-      let '(k', fs) := conn_transmit salt k (zN a mod (n + 1)) (zN b mod 65536) (zN c mod 4) (zN d mod 4) in
+      let '(k', fs) := conn_transmit salt k (zN a mod (n + 1)) (zN b mod cap_bound) (zN c mod 4) (zN d mod 4) in
       Some ([5%Z; Nz (k_pn k)] ++ render_frames fs, k', r)
   | 6%Z =>
       let '(a, r) := nx r in let '(b, r) := nx r in
